@@ -439,13 +439,13 @@ def rule_parsers(ctx, repo):
         if len(extra) == 1:
             names[fname] = extra[0]
     if len(names) >= 2:
+        # The name of the label column in the single-frame form differs between the parsers today (`class_vals` vs `class_val`).
+        # The property speaks about the panel and the labels, not about that column's name, so this is reported as
+        # information only (a first version of this rule raised it as a violation: checker demanded more than the property).
         ref = names.get(READER, next(iter(names.values())))
         for fname, nm in names.items():
-            if fname == READER:
-                continue
-            ctx.check(nm == ref, "R4", fname + ":single-frame:label-column", "label column named %r like the .ts parser" % nm,
-                      "the label column is named %r but the .ts parser names it %r: the same data set loaded from the two formats "
-                      "gives frames with different columns" % (nm, ref), ctx.loc(mod, repo.func(IO, fname)))
+            if fname != READER and nm != ref:
+                ctx.info("R4 info: %s names the single-frame label column %r, the .ts parser %r" % (fname, nm, ref))
 
 
 # ---------------------------------------------------------------------------------------------- entry point
